@@ -510,12 +510,15 @@ func samDrive(args []string) error {
 		var file []byte
 		want := []samItem{}
 		crlf := r.Intn(4) == 0
-		if sid%8 == 1 || sid%8 == 5 { // a header line can be long, too (4 KiB / 64 KiB buffers; exact powers of two)
+		// sessions with long lines: two in eight among the first 160 sessions (each of their events carries the whole file: the trace
+		// of a run with thousands of sessions would not fit in TLC's memory otherwise)
+		long1, long5 := sid%8 == 1 && sid < 160, sid%8 == 5 && sid < 160
+		if long1 || long5 { // a header line can be long, too (4 KiB / 64 KiB buffers; exact powers of two)
 			nh = max(nh, 1)
 		}
 		for i := 0; i < nh; i++ {
 			h := samHeader(r)
-			if (sid%8 == 1 || sid%8 == 5) && i == nh-1 {
+			if (long1 || long5) && i == nh-1 {
 				n := []int{5000, 4096, 33000, 65536, 70000, 8192}[(sid/8)%6]
 				h = "@CO\t" + strings.Repeat("h", n-4)
 			}
@@ -533,7 +536,7 @@ func samDrive(args []string) error {
 		var hs []held // MarshalText results are looked at only after all records were marshalled and written
 		for i := 0; i < nr; i++ {
 			s := samRecord(r)
-			if sid%8 == 1 && i == nr/2 {
+			if long1 && i == nr/2 {
 				s = samLong(r, []int{2500, 33000, 70000}[(sid/8)%3])
 			}
 			if sid%8 == 6 { // reference names that collide under common string hashes, in turn
@@ -544,7 +547,7 @@ func samDrive(args []string) error {
 					s.Qname = pr[(i/5)%2]
 				}
 			}
-			if sid%8 == 5 && i == nr/2 { // lines of exactly a power of two bytes (one less under CRLF: the CR makes it up)
+			if long5 && i == nr/2 { // lines of exactly a power of two bytes (one less under CRLF: the CR makes it up)
 				sizes := []int{4096, 32768, 65536}
 				if thorough() {
 					sizes = []int{4096, 8192, 32768, 65536, 131072, 262144}
